@@ -25,7 +25,8 @@ def parsePkgs : List String → Option (List Pkg)
       | "a" => some Prior.absent | "s" => some Prior.same | "d" => some Prior.different | "u" => some Prior.unwritable
       | _ => none
     let ps ← parsePkgs rest
-    some ({ pkgPath := p, hasErr := e == "1", prior := prior } :: ps)
+    -- e: 0 = translated, 1 = conversion errors (partial output exists), 2 = no translation at all
+    some ({ pkgPath := p, hasErr := e != "0", prior := prior, noOutput := e == "2" } :: ps)
   | _ => none
 
 def commaOrDash (l : List String) : String := if l.isEmpty then "-" else ",".intercalate l
